@@ -1,52 +1,94 @@
 """C18 — array morphologies survive their file format; their views agree with the arrays.
 
-Tie: hand model (lean/NmlVerif/Model/ArrayMorph.lean) + correspondence on generated arrays / documents against
+Tie: hand model (lean/NmlVerif/Model/ArrayMorph.lean) + a statement-level translation of the methods of
+`neuroml/arraymorph.py` regenerated on every run (translators/py2lean_arraymorph.py -> lean/NmlVerif/Gen/ArrayMorph.lean,
+proved equal to the hand model in Props/C18Gen.lean) + correspondence on generated arrays / histories / documents against
 the real `neuroml.arraymorph`, `ArrayMorphWriter`, `ArrayMorphLoader` (files in a tempfile.mkdtemp() directory);
 the same cases are evaluated against a harness-side oracle that states the property directly on the numpy arrays.
 
 Streams
+  hist    HISTORIES on ONE object: any sequence of segments[i] / len / iteration / segment_from_vertex_index /
+          to_neuroml_morphology / to_root (+ valid_ids, segments[i] = seg, append, +=, the plain accessors); real result and
+          model result compared call by call, final arrays and final `instantiated_segments` compared, and the oracle
+          evaluates the full view / conversion / re-rooting clauses after EVERY call
   morph   one array triple -> len(segments), list(segments), segments[i] for chosen i (negative / out of range
-          included), to_neuroml_morphology().segments
-  toroot  one tree, every choice of new root (+ malformed indices), also chains of re-rootings on one object
+          included), to_neuroml_morphology().segments, each on a fresh object
+  toroot  one tree, every choice of new root (+ malformed indices), chains of re-rootings on one object, forests,
+          cyclic connectivity (guarded by a timer: the real loop does not terminate, the model runs out of fuel)
   single  ArrayMorphWriter.write(ArrayMorphology) ; ArrayMorphLoader.load
-  doc     ArrayMorphWriter.write(NeuroMLDocument with 0-3 cells and 0-3 stand-alone morphologies) ; load
+  doc     ArrayMorphWriter.write(NeuroMLDocument with 0-3 cells and 0-3 stand-alone morphologies, cells without a morphology
+          or with a plain Morphology, plain stand-alone morphologies, ids None / distinct / colliding / of the shape of the
+          writer's default names) ; load
 """
 import json
 import os
 import shutil
 import signal
+import sys
 import tempfile
 from fractions import Fraction
 
 import fw
 
-LEAN_PROPS = ["NmlVerif.Props.C18"]
+LEAN_PROPS = ["NmlVerif.Props.C18", "NmlVerif.Props.C18Gen"]
 LEVEL = "proof"
-RULE = ("random vertex/connectivity/mask triples, 1-60 vertices (thorough: up to 120): tree shapes random-recursive / "
-        "chain / star / caterpillar / binary / broom, vertex numbering shuffled (parent index may exceed child index), "
-        "dyadic coordinates (k/8, exact), masks none / with floating roots / wrong length; every new root for each tree and "
-        "chains of 3 re-rootings; single morphologies and documents with 0-3 cells + 0-3 stand-alone morphologies "
-        "(ids None / distinct / colliding). A case is non-trivial when it lies in the property's scope and: the tree has "
-        ">= 3 vertices and is not the plain chain -1,0,1,.. (morph); additionally the new root is a valid non-root vertex "
-        "(toroot); the document holds >= 2 morphologies / the single morphology >= 2 vertices (file). "
+RULE = ("random vertex/connectivity/mask triples, 0-60 vertices (thorough: up to 120): tree shapes random-recursive / "
+        "chain / star / caterpillar / binary / broom / deep, vertex numbering shuffled (parent index may exceed child index), "
+        "dyadic coordinates (k/8, exact; 15% of the arrays hold one coordinate above 2^37 that float32 / int32 cannot hold), "
+        "float64 or int64 vertices, masks none / explicit all-zero of any length / bools / with floating roots / wrong length; "
+        "histories of 2-14 calls on one object (view reads by index incl. negative and out of range, iteration, len, "
+        "segment_from_vertex_index, conversion, re-rooting, 1 in 7 also with user-assigned / appended segments); every new "
+        "root for each tree and chains of 3 re-rootings; single morphologies and documents with 0-3 cells + 0-3 stand-alone "
+        "morphologies (ids None / distinct / colliding; 1 in 6 with non-array members). A case is non-trivial when it lies in "
+        "the property's scope and: the tree has >= 3 vertices and is not the plain chain -1,0,1,.. (morph, hist; a history "
+        "must also make two different kinds of call); additionally the new root is a valid non-root vertex (toroot); the "
+        "document holds >= 2 array morphologies / the single morphology >= 2 vertices (file). "
         "distinct = distinct canonical case descriptions")
 TRUST = [
-    "hand-written model of ArrayMorphology.to_root / segment_from_vertex_index / to_neuroml_morphology, SegmentList "
-    "(__len__, __getitem__, sequence-protocol iteration) and of ArrayMorphWriter / ArrayMorphLoader, tied by correspondence only",
-    "numpy indexing (negative indices wrap, out of range raises IndexError), np.where order, PyTables group/array storage and "
-    "iteration of a group's children in sorted (code point) name order are modelled, not verified",
-    "SegmentList.instantiated_segments (object cache) is not modelled; every query uses a fresh ArrayMorphology",
+    "hand-written model of ArrayMorphology / SegmentList incl. the per-object segment cache, of ArrayMorphWriter / "
+    "ArrayMorphLoader; the methods root_index, num_vertices, to_root, segment_from_vertex_index, to_neuroml_morphology, "
+    "SegmentList.__init__/__vertex_index_from_segment_index__/__len__/__getitem__/__setitem__ are ALSO translated from the "
+    "source on every run and proved equal to the hand model (Props/C18Gen.lean); the translator itself, the writer / loader "
+    "model and SegmentList.append are tied by correspondence only",
+    "numpy indexing (negative indices wrap, out of range raises IndexError), np.where order, np.sum, Python's sequence-protocol "
+    "iteration (__getitem__(0), (1), ... until IndexError), dict semantics of instantiated_segments, PyTables group/array "
+    "storage and iteration of a group's children in sorted (code point) name order are modelled, not verified",
+    "a to_root that raises may leave the connectivity array half-written: the model does not describe the object after a "
+    "failed to_root and the harness ends a history there",
 ]
 ASSUMPTIONS = [
     "object names are NeuroML ids ([A-Za-z_][A-Za-z0-9_]*) that PyTables accepts (not starting with _c_/_f_/_g_/_v_, non-empty)",
-    "round trip theorem for documents assumes distinct top-level group names (cell ids + stand-alone morphology ids, after "
-    "defaulting) and no cell morphology called 'vertices'; colliding names are open known findings",
+    "round trip theorem for documents assumes that every cell embeds an ArrayMorphology and every stand-alone morphology is "
+    "one, distinct top-level group names (cell ids + stand-alone morphology ids, after defaulting) and no cell morphology "
+    "called 'vertices'; each excluded class is an open known finding",
     "view / conversion / re-rooting theorems assume a tree without floating vertices (one root, mask all false), as the "
-    "property does; other inputs are covered bug-for-bug by correspondence only",
-    "array element values travel through HDF5 unchanged (exact for the int64/bool/dyadic float64 values generated)",
+    "property does; the history theorem excludes reading the view after a to_root that follows a view read (open finding "
+    "C18:view-stale-after-toroot); other inputs are covered bug-for-bug by correspondence only",
+    "array element values travel through HDF5 unchanged (exact for the int64/bool/dyadic float64 values generated; dtypes and "
+    "shapes are compared by the oracle)",
+    "slices of the view, ArrayMorphology.pop (declared failing by its own docstring), appending to a morphology built without "
+    "any vertex (numpy turns its connectivity into floats) are outside the model",
 ]
 
 DEN = 8
+# Which `to_root` the model executes inside a history.  False = the code as it is (the segment cache survives a
+# re-rooting: open finding C18:view-stale-after-toroot).  Set to True when fixes/C18-toroot-invalidates-cache.patch has
+# been applied to the library (model = `stepFixed`, theorem c18_history_fixed_full) and drop the finding.
+TOROOT_CLEARS_CACHE = bool(os.environ.get("VERIF_C18_TOROOT_CLEARS_CACHE"))
+# Same for fixes/C18-loader-vertices-is-array.patch (model = `loadFixed`, theorem c18_load_write_doc_fixedLoader).
+LOADER_FIXED = bool(os.environ.get("VERIF_C18_LOADER_FIXED"))
+# ... and for fixes/C18-writer-skips-non-array.patch (executable model `writeXDocFixed`; no theorem about it)
+WRITER_FIXED = bool(os.environ.get("VERIF_C18_WRITER_FIXED"))
+
+
+def regenerate(ctx):
+    """translator step: lean/NmlVerif/Gen/ArrayMorph.lean from the CURRENT neuroml/arraymorph.py (Props/C18Gen.lean proves
+    every generated definition equal to the hand model)"""
+    tdir = os.path.join(fw.VERIF, "translators")
+    if tdir not in sys.path:
+        sys.path.insert(0, tdir)
+    import py2lean_arraymorph
+    return py2lean_arraymorph.regenerate(fw.REPO, os.path.join(fw.LEAN, "NmlVerif", "Gen", "ArrayMorph.lean"))
 
 
 # ---------------------------------------------------------------- generators
@@ -92,6 +134,9 @@ def gen_vertices(rng, n, distinct=True):
     for i in range(n):
         # dyadic, distinct per vertex (first coordinate encodes the index so wrong-vertex errors are visible)
         vs.append([i * 8 + rng.randrange(8), rng.randrange(-40, 40), rng.randrange(-16, 16), 1 + rng.randrange(30)])
+    if n and rng.random() < 0.15:
+        # one coordinate that needs more than 24 bits of mantissa / 32 bits of integer: exact in float64 and int64 only
+        vs[rng.randrange(n)][rng.randrange(3)] = (2 ** 40 + 8 * rng.randrange(1000) + rng.randrange(8)) * rng.choice([1, -1])
     return vs  # numerators over DEN
 
 
@@ -100,7 +145,7 @@ def gen_arr(rng, big=False, kind=None):
     kind = kind or rng.choices(["tree0", "tree0id", "rerooted", "floating", "badmask"], [50, 15, 12, 15, 8])[0]
     nmax = 120 if big else 60
     r = rng.random()
-    n = 1 + rng.randrange(4) if r < 0.12 else (1 + rng.randrange(12) if r < 0.6 else 1 + rng.randrange(nmax))
+    n = rng.randrange(5) if r < 0.12 else (1 + rng.randrange(12) if r < 0.6 else 1 + rng.randrange(nmax))   # 0 = no vertex at all
     par, shape = gen_tree(rng, n)
     if kind == "tree0id":
         c = par
@@ -121,11 +166,18 @@ def gen_arr(rng, big=False, kind=None):
     if kind == "badmask":
         ln = rng.choice([0, 1, n - 1, n + 1, n + 2]) if rng.random() < 0.5 else n
         m = [1 if rng.random() < 0.3 else 0 for _ in range(max(ln, 0))]
+    if m is None and kind in ("tree0", "tree0id", "rerooted") and rng.random() < 0.15:
+        m = [0] * rng.choice([n, n, 0, n + 1])     # an explicit all-zero mask (any length: the constructor replaces it)
     intcoords = rng.random() < 0.2
     v = gen_vertices(rng, n)
     if intcoords:
         v = [[x * DEN for x in row] for row in v]
-    return {"v": v, "c": c, "m": m, "kind": kind, "shape": shape, "int": intcoords}
+    out = {"v": v, "c": c, "m": m, "kind": kind, "shape": shape, "int": intcoords}
+    if n and rng.random() < 0.1:
+        out["nt"] = True
+    if m is not None and rng.random() < 0.3:
+        out["mb"] = True         # mask given as bools instead of 0/1 ints
+    return out
 
 
 IDS = ["a", "b", "c1", "A", "Z9", "_z", "a_", "a10", "a2", "cell", "m", "Morphology0", "Morphology1", "Cell0", "Cell1",
@@ -139,27 +191,40 @@ def gen_small_arr(rng):
     return a
 
 
-def gen_doc(rng, collide=False):
+def gen_doc(rng, collide=False, mixed=False):
+    """0-3 cells and 0-3 stand-alone morphologies.  collide: ids drawn from a small pool (same id for a cell and a
+    morphology, explicit ids of the shape of the writer's defaults, a cell morphology called 'vertices').
+    mixed: some cells have no embedded morphology / a plain neuroml.Morphology, some stand-alone morphologies are plain"""
     nc, nm = rng.randint(0, 3), rng.randint(0, 3)
     pool = list(IDS)
     rng.shuffle(pool)
 
-    def pick():
+    def pick(defaults):
         r = rng.random()
         if r < 0.25:
             return None
-        if collide and r < 0.55:
+        if collide and r < 0.45:
             return rng.choice(IDS[:6])
+        if collide and r < 0.6:
+            return rng.choice(defaults)
         return pool.pop()
     cells = []
     for _ in range(nc):
         a = gen_small_arr(rng)
         mid = None if rng.random() < 0.4 else rng.choice(["m", "morph", "Morphology", "a", "vertices" if collide else "v"])
-        cells.append({"id": pick(), "mid": mid, "v": a["v"], "c": a["c"], "m": a["m"], "int": a["int"]})
+        c = {"id": pick(["Cell0", "Cell1", "Cell2", "Morphology0"]), "mid": mid, "v": a["v"], "c": a["c"], "m": a["m"],
+             "int": a["int"]}
+        if mixed and rng.random() < 0.4:
+            c["kind"] = rng.choice(["none", "plain"])
+        cells.append(c)
     morphs = []
     for _ in range(nm):
         a = gen_small_arr(rng)
-        morphs.append({"id": pick(), "v": a["v"], "c": a["c"], "m": a["m"], "int": a["int"]})
+        m = {"id": pick(["Morphology0", "Morphology1", "Morphology2", "Cell0"]), "v": a["v"], "c": a["c"], "m": a["m"],
+             "int": a["int"]}
+        if mixed and rng.random() < 0.25:
+            m["kind"] = "plain"
+        morphs.append(m)
     return {"cells": cells, "morphs": morphs}
 
 
@@ -172,14 +237,16 @@ def _alarm(signum, frame):
     raise Hang()
 
 
-def guarded(fn, secs=2):
-    old = signal.signal(signal.SIGALRM, _alarm)
-    signal.setitimer(signal.ITIMER_REAL, secs)
+def guarded(fn, secs=1.5):
+    """run fn; a loop that burns `secs` seconds of this process's CPU time is taken for non-terminating (CPU time, not wall
+    time: being descheduled on a loaded machine must not look like a hang)"""
+    old = signal.signal(signal.SIGVTALRM, _alarm)
+    signal.setitimer(signal.ITIMER_VIRTUAL, secs)
     try:
         return fn()
     finally:
-        signal.setitimer(signal.ITIMER_REAL, 0)
-        signal.signal(signal.SIGALRM, old)
+        signal.setitimer(signal.ITIMER_VIRTUAL, 0)
+        signal.signal(signal.SIGVTALRM, old)
 
 
 def mk_real(a, id=None):
@@ -189,8 +256,11 @@ def mk_real(a, id=None):
         v = np.array([[x // DEN for x in row] for row in a["v"]], dtype="int64").reshape(len(a["v"]), 4)
     else:
         v = np.array([[x / DEN for x in row] for row in a["v"]], dtype="float64").reshape(len(a["v"]), 4)
-    return am.ArrayMorphology(vertices=v, connectivity=list(a["c"]), id=id,
-                              physical_mask=None if a["m"] is None else list(a["m"]))
+    mask = None if a["m"] is None else ([bool(x) for x in a["m"]] if a.get("mb") else list(a["m"]))
+    extra = {}
+    if a.get("nt"):        # optional per-vertex arrays the constructor also takes (not part of the file format)
+        extra = {"node_types": [1 + (k % 3) for k in range(len(a["c"]))], "fractions_along": [1] * len(a["c"])}
+    return am.ArrayMorphology(vertices=v, connectivity=list(a["c"]), id=id, physical_mask=mask, **extra)
 
 
 def num(x):
@@ -208,6 +278,10 @@ def canon_arrays(m):
     return {"v": v, "c": c, "m": mk}
 
 
+def canon_dtypes(m):
+    return [str(m.vertices.dtype), str(m.connectivity.dtype), str(m.physical_mask.dtype), list(m.vertices.shape)]
+
+
 def canon_seg(s):
     def pt(p):
         return [num(p.x), num(p.y), num(p.z), num(p.diameter)]
@@ -216,14 +290,21 @@ def canon_seg(s):
 
 def exc_name(e):
     n = type(e).__name__
-    return n if n in ("IndexError", "NodeError", "NoSuchNodeError", "UnboundLocalError") else "exc:" + n
+    return n if n in ("IndexError", "NodeError", "NoSuchNodeError", "UnboundLocalError", "AttributeError", "KeyError") \
+        else "exc:" + n
 
 
 def real_morph(a, idx):
     m = mk_real(a)
     arrs = canon_arrays(m)
-    out = {"len": len(m.segments)}
-    out["iter"] = [canon_seg(s) for s in mk_real(a).segments]
+    try:
+        out = {"len": len(m.segments)}
+    except Exception as e:  # noqa
+        out = {"len": exc_name(e)}
+    try:
+        out["iter"] = [canon_seg(s) for s in mk_real(a).segments]
+    except Exception as e:  # noqa
+        out["iter"] = exc_name(e)
     get = []
     for i in idx:
         try:
@@ -252,21 +333,39 @@ def real_file(case, root, k):
     from neuroml.loaders import ArrayMorphLoader
     from neuroml.writers import ArrayMorphWriter
     p = os.path.join(root, "f%d.h5" % k)
+    written = []
     try:
         if "cells" in case:
             doc = neuroml.NeuroMLDocument(id="d")
             for c in case["cells"]:
                 cell = neuroml.Cell(id=c["id"])
-                cell.morphology = mk_real(c, id=c["mid"])
+                if c.get("kind") == "plain":
+                    cell.morphology = neuroml.Morphology(id=c["mid"])
+                elif c.get("kind") != "none":
+                    cell.morphology = mk_real(c, id=c["mid"])
+                    written.append(cell.morphology)
                 doc.cells.append(cell)
             for m in case["morphs"]:
-                doc.morphology.append(mk_real(m, id=m["id"]))
+                doc.morphology.append(neuroml.Morphology(id=m["id"]) if m.get("kind") == "plain" else mk_real(m, id=m["id"]))
+                if m.get("kind") != "plain":
+                    written.append(doc.morphology[-1])
+            wd = [[canon_arrays(m), canon_dtypes(m)] for m in written]
             ArrayMorphWriter.write(doc, p)
         else:
-            ArrayMorphWriter.write(mk_real(case, id=case["id"]), p)
+            one = mk_real(case, id=case["id"])
+            wd = [[canon_arrays(one), canon_dtypes(one)]]
+            ArrayMorphWriter.write(one, p)
         leaked = _open_count()
         loaded = ArrayMorphLoader.load(p)
-        return {"res": "ok", "morphs": [canon_arrays(m) for m in loaded.morphology], "leaked": leaked}
+        views = []            # the views of the LOADED objects (file format and view cooperating)
+        for m in loaded.morphology:
+            try:
+                views.append({"len": len(m.segments), "iter": [canon_seg(x) for x in m.segments],
+                              "conv": [canon_seg(x) for x in m.to_neuroml_morphology(id="L").segments]})
+            except Exception as e:  # noqa
+                views.append({"exc": exc_name(e)})
+        return {"res": "ok", "morphs": [canon_arrays(m) for m in loaded.morphology], "leaked": leaked, "views": views,
+                "typed": [wd, [[canon_arrays(m), canon_dtypes(m)] for m in loaded.morphology]]}
     except Exception as e:  # noqa
         return {"res": exc_name(e), "leaked": _open_count(), "msg": str(e)[:100]}
     finally:
@@ -320,8 +419,19 @@ def in_scope(a):
     return is_tree(a["c"], 0) and not any(eff_mask(a)) and len(eff_mask(a)) == len(a["c"])
 
 
+def bad_parent_ref(segs, c):
+    """segments (canonical, ids = vertex indices) whose parent reference is not the segment of the parent vertex; only the
+    clear case is judged: vertex k > 1 whose parent vertex p is not the root vertex 0 (segment p exists and has id p)"""
+    return [sg for sg in segs if isinstance(sg, list) and isinstance(sg[0], int) and 1 < sg[0] < len(c) and c[sg[0]] >= 1
+            and sg[3] != c[sg[0]]]
+
+
 def strip(a):
-    return {"v": a["v"], "c": a["c"], "m": a["m"], "int": a.get("int", False)}
+    d = {"v": a["v"], "c": a["c"], "m": a["m"], "int": a.get("int", False)}
+    for k in ("nt", "mb"):
+        if a.get(k):
+            d[k] = True
+    return d
 
 
 def nontrivial_tree(c):
@@ -351,6 +461,9 @@ def check_morph(ctx, a, idx, arrs, real, model):
         return
     n = len(a["c"])
     want = [[v, a["v"][v], a["v"][a["c"][v]]] for v in range(1, n)]
+    if not isinstance(real["iter"], list):
+        ctx.fail("C18:view-count", "iterating the view raised %s on a tree with %d vertices" % (real["iter"], n), case)
+        return
     got_view = [s[:3] for s in real["iter"]]
     if real["len"] != n - 1 or len(real["iter"]) != n - 1:
         ctx.fail("C18:view-count", "segment view does not have one segment per non-root vertex (len=%s, iterated=%s, n=%d)"
@@ -371,6 +484,11 @@ def check_morph(ctx, a, idx, arrs, real, model):
         else:
             key = "C18:convert-differs-from-view"
         ctx.fail(key, "to_neuroml_morphology does not yield the segments of the view", dict(case, conv=real["conv"]))
+    else:
+        bad = bad_parent_ref(real["conv"], a["c"])
+        if bad:
+            ctx.fail("C18:segment-parent-ref", "segment %d of the converted morphology does not name the segment of its parent "
+                     "vertex %d as parent" % (bad[0][0], a["c"][bad[0][0]]), dict(case, got=bad[0]))
 
 
 HANGS = {"n": 0}
@@ -435,6 +553,310 @@ def check_toroot(ctx, a, v0, before, j, real, model, wellformed):
         ctx.fail("C18:toroot-not-tree", "result of to_root is not a tree rooted at the new root", dict(case, after=c2))
 
 
+# ---------------------------------------------------------------- histories of calls on ONE object
+def seg_to_real(sj):
+    import neuroml
+    def pt(p):
+        return neuroml.Point3DWithDiam(x=p[0] / DEN, y=p[1] / DEN, z=p[2] / DEN, diameter=p[3] / DEN)
+    s = neuroml.Segment(proximal=pt(sj[1]), distal=pt(sj[2]), id=sj[0])
+    if sj[3] is not None:
+        s.parent = neuroml.SegmentParent(segments=sj[3])
+    return s
+
+
+def real_call(m, call):
+    """one call of a history on the real object -> canonical result"""
+    o = call["o"]
+    if o == "get":
+        try:
+            return canon_seg(m.segments[call["i"]])
+        except Exception as e:  # noqa
+            return exc_name(e)
+    if o == "len":
+        try:
+            return len(m.segments)
+        except Exception as e:  # noqa
+            return exc_name(e)
+    if o == "iter":
+        try:
+            return [canon_seg(s) for s in m.segments]
+        except Exception as e:  # noqa
+            return exc_name(e)
+    if o == "sfv":
+        try:
+            return canon_seg(m.segment_from_vertex_index(call["k"]))
+        except Exception as e:  # noqa
+            return exc_name(e)
+    if o == "conv":
+        try:
+            return [canon_seg(s) for s in m.to_neuroml_morphology(id="T").segments]
+        except Exception as e:  # noqa
+            return exc_name(e)
+    if o == "toroot":
+        if HANGS["n"] >= MAX_HANGS:
+            return {"res": "skipped-after-repeated-hangs"}
+        try:
+            guarded(lambda: m.to_root(call["j"]))
+            return {"res": "ok", "c": [int(x) for x in m.connectivity.tolist()]}
+        except Hang:
+            HANGS["n"] += 1
+            return {"res": "outOfFuel"}
+        except Exception as e:  # noqa
+            return {"res": exc_name(e)}
+    try:
+        if o == "valid":
+            return bool(m.valid_ids)
+        if o == "set":
+            m.segments[call["i"]] = seg_to_real(call["s"])
+            return None
+        if o == "append":
+            m.segments.append(seg_to_real(call["s"]))
+            return None
+        if o == "iadd":
+            m.segments += [seg_to_real(x) for x in call["ss"]]
+            return None
+        if o == "parent_id":
+            return int(m.parent_id(call["i"]))
+        if o == "vertex":
+            return [num(x.item()) for x in m.vertex(call["i"])]
+        if o == "children":
+            return [int(x) for x in m.children(call["i"])[0].tolist()]
+        if o == "physical":
+            return [int(x) for x in m.physical_indices.tolist()]
+        if o == "root_vertex":
+            return [num(x.item()) for x in m.root_vertex]
+        if o == "alen":
+            return len(m)
+    except Exception as e:  # noqa
+        return exc_name(e)
+    raise ValueError(o)
+
+
+def real_hist(a, calls):
+    """run `calls` on ONE ArrayMorphology; a failed to_root ends the history (the object may be half-written).
+    returns (arrays at start, calls really made, [(conn before the call, result)], final arrays, final cache)"""
+    m = mk_real(a)
+    arrs = canon_arrays(m)
+    made, steps = [], []
+    for call in calls:
+        before = [int(x) for x in m.connectivity.tolist()]
+        r = real_call(m, call)
+        made.append(call)
+        steps.append((before, r))
+        if call["o"] == "toroot" and r["res"] != "ok":
+            break
+    try:
+        cache = sorted([int(k), canon_seg(v)] for k, v in m.segments.instantiated_segments.items())
+    except Exception as e:  # noqa
+        cache = "uncanonical-cache:" + exc_name(e)
+    return arrs, made, steps, canon_arrays(m), cache
+
+
+def hist_line(arrs, made):
+    return json.dumps({"op": "hist", "v": arrs["v"], "c": arrs["c"], "m": arrs["m"], "calls": made,
+                       "fixed": TOROOT_CLEARS_CACHE})
+
+
+def call_str(c):
+    return c["o"] + "".join("(%s)" % c[k] for k in ("i", "k", "j") if k in c)
+
+
+def check_hist(ctx, a, calls, arrs, made, steps, final, cache, model):
+    case = {"stream": "hist", "arr": strip(a), "calls": calls}
+    n = len(a["c"])
+    kinds = [c["o"] for c in made]
+    has_set = "set" in kinds
+    scope0 = in_scope(a)
+    ctx.seen(case, nontrivial=scope0 and nontrivial_tree(a["c"]) and len(set(kinds)) >= 2)
+    ctx.count("hist:" + a.get("kind", "corpus"))
+    ctx.count("hist:calls=%s" % (len(made) if len(made) < 8 else "8+"))
+    for k in kinds:
+        ctx.count("hist:call:" + k)
+    fills = [i for i, k in enumerate(kinds) if k in ("get", "iter")]
+    if fills and any(k == "conv" for k in kinds[fills[0] + 1:]):
+        ctx.count("hist:pattern:cache-filled-then-convert")
+    tr = [i for i, k in enumerate(kinds) if k == "toroot" and i > (fills[0] if fills else len(kinds))]
+    if tr and any(k in ("get", "iter") for k in kinds[tr[0] + 1:]):
+        ctx.count("hist:pattern:fill-toroot-read")
+    ctx.corr_evals += 1
+    real = {"steps": [r for _, r in steps], "arr": final, "cache": cache}
+    if any(isinstance(r, dict) and r.get("res") == "skipped-after-repeated-hangs" for _, r in steps):
+        ctx.count("hist:skipped-after-repeated-hangs")
+        return
+    if model != real:
+        bad = None
+        if isinstance(model.get("steps"), list) and len(model["steps"]) == len(real["steps"]):
+            bad = [i for i in range(len(made)) if model["steps"][i] != real["steps"][i]][:1]
+        ctx.disagree("hist", dict(case, first_differing_call=(call_str(made[bad[0]]) if bad else "final state")), real, model)
+    # ---- the property on the real object, after every call
+    if arrs["v"] != a["v"] or arrs["c"] != a["c"] or arrs["m"] != eff_mask(a):
+        ctx.fail("C18:constructor-changes-arrays", "ArrayMorphology does not hold the arrays it was given", case)
+        return
+    nofloat = not any(eff_mask(a)) and len(eff_mask(a)) == n and len(a["v"]) == n
+    shadow = {}          # segment index -> (connectivity when the view first handed it out, the segment)
+    overridden = set()   # keys the user assigned through segments[i] = seg
+    by_root = {}         # root -> connectivity array seen with that root (a tree's array is determined by edges + root)
+    v = a["v"]
+    for pos, (call, (c, r)) in enumerate(zip(made, steps)):
+        o = call["o"]
+        where = "call %d of the history, %s" % (pos, call_str(call))
+        if o in ("append", "iadd"):  # from here on the object is not "given as arrays" any more (floating vertices): model only
+            ctx.count("hist:append-ends-oracle")
+            return
+        if nofloat and c.count(-1) == 1:
+            by_root.setdefault(c.index(-1), c)
+        if o in ("parent_id", "vertex", "children", "physical", "root_vertex", "alen") and len(a["v"]) == n:
+            i = call.get("i")
+            exp = {"parent_id": lambda: c[i] if -n <= i < n else "IndexError",
+                   "vertex": lambda: v[i] if -n <= i < n else "IndexError",
+                   "children": lambda: [k for k in range(n) if c[k] == i],
+                   "physical": lambda: [k for k, b in enumerate(eff_mask(a)) if not b],
+                   "root_vertex": lambda: v[c.index(-1)] if -1 in c else "IndexError",
+                   "alen": lambda: n}[o]()
+            if r != exp:
+                ctx.fail("C18:accessor-disagrees-with-arrays", "%s returned %s, the arrays say %s (%s)" % (o, r, exp, where), case)
+            continue
+        tree0 = nofloat and is_tree(c, 0)
+        want = [[k, v[k], v[c[k]]] for k in range(1, n)] if tree0 else None
+
+        def stale(i, got):
+            return i in shadow and shadow[i][0] != c and shadow[i][1] == got
+        if o == "toroot":
+            wf = nofloat and any(is_tree(c, r0) for r0 in range(n))
+            j = call["j"]
+            if wf and 0 <= j < n:
+                if r["res"] != "ok":
+                    ctx.fail("C18:toroot-raises", "to_root on a tree failed (%s): %s" % (where, r["res"]), case)
+                    return
+                c2 = r["c"]
+                if [x for x in range(n) if c2[x] == -1] != [j]:
+                    ctx.fail("C18:toroot-roots", "after to_root(%d) the roots are %s (%s)" %
+                             (j, [x for x in range(n) if c2[x] == -1], where), dict(case, before=c, after=c2))
+                elif edges(c2) != edges(c):
+                    ctx.fail("C18:toroot-edges", "to_root changed the undirected edge set (%s)" % where,
+                             dict(case, before=c, after=c2))
+                elif not is_tree(c2, j):
+                    ctx.fail("C18:toroot-not-tree", "result of to_root is not a tree rooted at the new root (%s)" % where,
+                             dict(case, before=c, after=c2))
+                elif by_root.get(j, c2) != c2:
+                    ctx.fail("C18:toroot-back-differs", "re-rooting back at %d does not restore the array the object had "
+                             "when %d was the root before (%s)" % (j, j, where), dict(case, before=c, after=c2, earlier=by_root[j]))
+            continue
+        if o == "set":
+            overridden.add(call["i"])
+            continue
+        if o == "get":
+            i = call["i"]
+            if isinstance(r, list) and i not in overridden:
+                if tree0 and 0 <= i < n - 1 and r[:3] != want[i]:
+                    if stale(i, r):
+                        ctx.fail("C18:view-stale-after-toroot",
+                                 "segments[%d] still is the segment handed out before to_root changed the parent of vertex %d (%s)"
+                                 % (i, i + 1, where), dict(case, got=r, want=want[i]))
+                    else:
+                        ctx.fail("C18:view-endpoints", "segments[%d] does not join vertex %d and its parent vertex (%s)"
+                                 % (i, i + 1, where), dict(case, got=r, want=want[i]))
+                shadow.setdefault(i, (c, r))
+            elif tree0 and 0 <= i < n - 1 and i not in overridden:
+                ctx.fail("C18:view-endpoints", "segments[%d] raised %s on a tree with %d vertices (%s)" % (i, r, n, where), case)
+        elif o == "len":
+            if tree0 and r != n - 1:
+                ctx.fail("C18:view-count", "len(segments) = %s on a tree with %d vertices (%s)" % (r, n, where), case)
+        elif o == "iter":
+            if not isinstance(r, list):
+                if tree0:
+                    ctx.fail("C18:view-count", "iterating the view raised %s on a tree with %d vertices (%s)" % (r, n, where), case)
+                continue
+            if tree0 and not overridden:
+                if len(r) != n - 1:
+                    ctx.fail("C18:view-count", "iterating the view gives %d segments on a tree with %d vertices (%s)"
+                             % (len(r), n, where), case)
+                else:
+                    bad = [i for i in range(n - 1) if r[i][:3] != want[i]]
+                    if bad and all(stale(i, r[i]) for i in bad):
+                        ctx.fail("C18:view-stale-after-toroot",
+                                 "iteration still yields the segment %d handed out before to_root changed that vertex's parent (%s)"
+                                 % (bad[0], where), dict(case, got=r[bad[0]], want=want[bad[0]]))
+                    elif bad:
+                        ctx.fail("C18:view-endpoints", "iterated segment %d does not join vertex %d and its parent vertex (%s)"
+                                 % (bad[0], bad[0] + 1, where), dict(case, got=r[bad[0]], want=want[bad[0]]))
+            for i, sg in enumerate(r):
+                shadow.setdefault(i, (c, sg))
+        elif o == "sfv":
+            k = call["k"]
+            if tree0 and 1 <= k < n and (not isinstance(r, list) or r[:3] != want[k - 1]):
+                ctx.fail("C18:sfv-endpoints", "segment_from_vertex_index(%d) does not join vertex %d and its parent vertex (%s)"
+                         % (k, k, where), dict(case, got=r, want=want[k - 1]))
+        elif o == "conv":
+            if tree0 and (not isinstance(r, list) or [x[:3] for x in r] != want):
+                if isinstance(r, list) and len(r) == n - 1 and r and r[0][0] == 0:
+                    key = "C18:convert-bogus-root-segment"
+                else:
+                    key = "C18:convert-differs-from-view"
+                ctx.fail(key, "to_neuroml_morphology does not yield one segment per non-root vertex joining it to its parent "
+                              "vertex (%s)" % where, dict(case, conv=r, want=want))
+        fresh_view = not overridden and not any(shadow[k][0] != c for k in shadow)      # no user-set / stale cache entries
+        if tree0 and (o in ("sfv", "conv") or (o in ("get", "iter") and fresh_view)):
+            segs = r if o in ("iter", "conv") and isinstance(r, list) else ([r] if isinstance(r, list) else [])
+            bad = bad_parent_ref(segs, c)
+            if bad:
+                ctx.fail("C18:segment-parent-ref", "segment %d does not name the segment of its parent vertex %d as parent (%s)"
+                         % (bad[0][0], c[bad[0][0]], where), dict(case, got=bad[0]))
+        # an observer must not change the arrays
+        nxt = steps[pos + 1][0] if pos + 1 < len(steps) else final["c"]
+        if nxt != c:
+            ctx.fail("C18:view-modifies-arrays", "%s changed the connectivity array" % where, case)
+    if "append" not in kinds and "iadd" not in kinds and (final["v"] != arrs["v"] or final["m"] != arrs["m"]):
+        ctx.fail("C18:history-touches-other-arrays", "a call of the history changed vertices or mask", case)
+
+
+def gen_calls(rng, n, with_set=False, long=False):
+    """a history: view reads, conversions and re-rootings in any order on one object"""
+    k = rng.randint(2, 14 if long else 8)
+    calls = []
+    root = 0
+    for _ in range(k):
+        r = rng.random()
+        if r < 0.34:
+            q = rng.random()
+            if n >= 2 and q < 0.75:
+                i = rng.randrange(n - 1)
+            elif q < 0.9:
+                i = -rng.randint(1, n + 1)
+            else:
+                i = n - 1 + rng.randrange(3)
+            calls.append({"o": "get", "i": i})
+        elif r < 0.44:
+            calls.append({"o": "iter"})
+        elif r < 0.50:
+            calls.append({"o": "len"})
+        elif r < 0.60:
+            kk = rng.randrange(1, n) if n >= 2 and rng.random() < 0.8 else rng.choice([0, -1, n, n + 1, -n])
+            calls.append({"o": "sfv", "k": kk})
+        elif r < 0.78:
+            calls.append({"o": "conv"})
+        elif r < 0.93 and n >= 1:
+            j = 0 if (root != 0 and rng.random() < 0.6) else rng.randrange(n)
+            calls.append({"o": "toroot", "j": j})
+            root = j
+        elif r < 0.95:
+            calls.append({"o": "valid"})
+        elif r < 0.97:
+            o = rng.choice(["parent_id", "vertex", "children", "physical", "root_vertex", "alen"])
+            calls.append({"o": o, "i": rng.randrange(-n - 1, n + 2)} if o in ("parent_id", "vertex", "children") else {"o": o})
+        elif with_set and n >= 1 and rng.random() < 0.4:
+            mk = lambda: [rng.randrange(1, 60), [rng.randrange(400) for _ in range(4)],  # noqa: E731
+                          [rng.randrange(400) for _ in range(4)], None]
+            calls.append({"o": "append", "s": mk()} if rng.random() < 0.7 else {"o": "iadd", "ss": [mk(), mk()]})
+        elif with_set:
+            sv = [rng.randrange(1, 60), [rng.randrange(400) for _ in range(4)], [rng.randrange(400) for _ in range(4)],
+                  rng.choice([None, rng.randrange(n + 1)])]
+            calls.append({"o": "set", "i": rng.randrange(-1, n + 1), "s": sv})
+        else:
+            calls.append({"o": "conv"})
+    return calls
+
+
 def multiset(ms):
     return sorted(json.dumps(m, sort_keys=True) for m in ms)
 
@@ -449,7 +871,7 @@ def check_file(ctx, case, real, model):
     isdoc = "cells" in case
     canon = {"stream": "doc" if isdoc else "single", "case": case}
     items = (case["cells"] + case["morphs"]) if isdoc else [case]
-    ctx.seen(canon, nontrivial=len(items) >= 2 if isdoc else len(case["c"]) >= 2)
+    ctx.seen(canon, nontrivial=len([x for x in items if x.get("kind") in (None, "array")]) >= 2 if isdoc else len(case["c"]) >= 2)
     ctx.count("file:doc" if isdoc else "file:single")
     if isdoc:
         ctx.count("doc:cells=%d,morphs=%d" % (len(case["cells"]), len(case["morphs"])))
@@ -457,26 +879,46 @@ def check_file(ctx, case, real, model):
     r = {k: v for k, v in real.items() if k in ("res", "morphs")}
     if model != r:
         ctx.disagree("file", canon, r, model)
-    # ---- full property: identical arrays for every morphology
-    want = [{"v": x["v"], "c": x["c"], "m": eff_mask(x)} for x in items]
+    # ---- full property: identical arrays for every (array) morphology
+    is_arr = lambda x: x.get("kind") in (None, "array")  # noqa: E731
+    want = [{"v": x["v"], "c": x["c"], "m": eff_mask(x)} for x in items if is_arr(x)]
+    survived = real["res"] == "ok" and multiset(real["morphs"]) == multiset(want)
     if isdoc:
         cells, morphs = top_names(case)
-        if len(set(cells)) != len(cells) or len(set(morphs)) != len(morphs):
-            ctx.count("doc:duplicate-id-same-type(not a valid document)")
+        explicit_c = [c["id"] for c in case["cells"] if c["id"] is not None]
+        explicit_m = [m["id"] for m in case["morphs"] if m["id"] is not None]
+        if len(set(explicit_c)) != len(explicit_c) or len(set(explicit_m)) != len(explicit_m):
+            ctx.count("doc:duplicate-explicit-id-same-type(not a valid document)")
             return
-        if set(cells) & set(morphs):
-            ctx.count("doc:cell-id==morphology-id")
-            if real["res"] != "ok" or multiset(real["morphs"]) != multiset(want):
-                ctx.fail("C18:doc-cell-and-morphology-share-name",
-                         "a cell and a stand-alone morphology with the same id cannot be written: %s" % real["res"], canon)
-            return
-        if any(c["mid"] == "vertices" for c in case["cells"]):
-            ctx.count("doc:cell-morphology-named-vertices")
-            if real["res"] != "ok" or multiset(real["morphs"]) != multiset(want):
-                ctx.fail("C18:doc-cell-morphology-named-vertices",
-                         "a cell whose morphology id is 'vertices' is mistaken for a morphology group on load: %s" % real["res"],
-                         canon)
-            return
+        # which of the known obstacles does this document have?  (a finding key is used only when the document has that
+        # obstacle AND the writer / loader failed in the way that obstacle makes it fail; anything else is a violation)
+        nonarr = [x for x in items if not is_arr(x)]
+        dflt_clash = len(set(cells)) != len(cells) or len(set(morphs)) != len(morphs)
+        share = bool(set(cells) & set(morphs))
+        vert = any(is_arr(c) and c["mid"] == "vertices" for c in case["cells"])
+        for flag, name in ((any(x.get("kind") == "none" for x in nonarr), "doc:cell-without-embedded-morphology"),
+                           (any(x.get("kind") == "plain" for x in nonarr), "doc:plain-morphology"),
+                           (dflt_clash, "doc:default-id-collides-with-explicit-id"), (share, "doc:cell-id==morphology-id"),
+                           (vert, "doc:cell-morphology-named-vertices")):
+            if flag:
+                ctx.count(name)
+        if not survived:
+            res, key, what = real["res"], None, None
+            if res == "AttributeError" and nonarr:
+                if nonarr[0].get("kind") == "none":
+                    key, what = "C18:doc-cell-without-morphology", "a document with a cell that has no embedded morphology cannot be written"
+                else:
+                    key, what = "C18:doc-plain-morphology", "a document that also holds a plain neuroml.Morphology cannot be written"
+            elif res == "NodeError" and dflt_clash:
+                key, what = "C18:doc-default-id-collides", "the default name of an id-less cell / morphology equals an explicit id"
+            elif res == "NodeError" and share:
+                key, what = "C18:doc-cell-and-morphology-share-name", "a cell and a stand-alone morphology with the same id cannot be written"
+            elif res == "NoSuchNodeError" and vert:
+                key, what = "C18:doc-cell-morphology-named-vertices", \
+                    "a cell whose morphology id is 'vertices' is mistaken for a morphology group on load"
+            if key:
+                ctx.fail(key, "%s: %s" % (what, res), canon)
+                return
     if real["res"] != "ok":
         nm = len(case["morphs"]) if isdoc else 0
         key = "C18:doc-standalone-unwritable" if (isdoc and nm and real["res"] in ("UnboundLocalError", "NodeError")) \
@@ -486,17 +928,32 @@ def check_file(ctx, case, real, model):
         return
     if multiset(real["morphs"]) != multiset(want):
         ctx.fail("C18:roundtrip-arrays-differ", "loaded arrays differ from the written ones", dict(canon, loaded=real["morphs"]))
-    elif real.get("leaked"):
-        ctx.fail("C18:handle-left-open", "writer left an HDF5 handle open", canon)
+    elif multiset(real["typed"][0]) != multiset(real["typed"][1]):
+        ctx.fail("C18:roundtrip-dtype-differs", "loaded arrays have another dtype / shape than the written ones",
+                 dict(canon, written=real["typed"][0], loaded=real["typed"][1]))
+    else:
+        # the loaded objects' own views agree with the loaded arrays
+        for la, vw in zip(real["morphs"], real["views"]):
+            if not in_scope(la):
+                continue
+            n = len(la["c"])
+            want_l = [[k, la["v"][k], la["v"][la["c"][k]]] for k in range(1, n)]
+            if vw.get("len") != n - 1 or [x[:3] for x in vw.get("iter", [])] != want_l or \
+                    [x[:3] for x in vw.get("conv", [])] != want_l:
+                ctx.fail("C18:loaded-view-disagrees", "the segment view / conversion of a LOADED morphology does not agree with "
+                         "its arrays", dict(canon, loaded=la, view=vw))
+                break
+        if real.get("leaked"):
+            ctx.fail("C18:handle-left-open", "writer left an HDF5 handle open", canon)
 
 
 def file_line(case):
     def arrj(x):
         return {"v": x["v"], "c": x["c"], "m": eff_mask(x)}
     if "cells" in case:
-        return json.dumps({"op": "doc",
-                           "cells": [dict(arrj(c), id=c["id"], mid=c["mid"]) for c in case["cells"]],
-                           "morphs": [dict(arrj(m), id=m["id"]) for m in case["morphs"]]})
+        return json.dumps({"op": "doc", "loader_fixed": LOADER_FIXED, "writer_fixed": WRITER_FIXED,
+                           "cells": [dict(arrj(c), id=c["id"], mid=c["mid"], kind=c.get("kind", "array")) for c in case["cells"]],
+                           "morphs": [dict(arrj(m), id=m["id"], kind=m.get("kind", "array")) for m in case["morphs"]]})
     return json.dumps(dict(arrj(case), op="single", id=case["id"]))
 
 
@@ -506,9 +963,14 @@ def pick_idx(rng, n):
     return sorted(cand[: min(len(cand), 8)])
 
 
-def run_cases(ctx, morphs, toroots, files):
-    """morphs: [(arr, idx)], toroots: [(arr, [j...], wellformed)], files: [case]"""
+def run_cases(ctx, morphs, toroots, files, hists=()):
+    """morphs: [(arr, idx)], toroots: [(arr, [j...], wellformed)], files: [case], hists: [(arr, calls)]"""
     lines, plan = [], []
+    # history stream: many calls on ONE object (model input = the arrays the real object holds at the start)
+    for a, calls in hists:
+        arrs, made, steps, final, cache = real_hist(a, calls)
+        plan.append(("hist", a, calls, arrs, made, steps, final, cache))
+        lines.append(hist_line(arrs, made))
     # morph stream (model input = the arrays the real object holds)
     for a, idx in morphs:
         arrs, real = real_morph(a, idx)
@@ -540,7 +1002,13 @@ def run_cases(ctx, morphs, toroots, files):
             mo = json.loads(o)
         except ValueError:
             mo = {"error": o[:200]}
-        if p[0] == "morph":
+        if p[0] == "hist":
+            check_hist(ctx, p[1], p[2], p[3], p[4], p[5], p[6], p[7], mo)
+            if p[1].get("kind") and len(p[4]) >= 4 and sampled.setdefault("hist", 0) < 2:
+                sampled["hist"] += 1
+                ctx.sample({"stream": "hist", "c": p[1]["c"][:16], "calls": [call_str(c) for c in p[4]],
+                            "results": [r if not isinstance(r, list) else "(%d values)" % len(r) for _, r in p[5]][:14]})
+        elif p[0] == "morph":
             check_morph(ctx, p[1], p[2], p[3], p[4], mo)
             if p[1].get("kind") and sampled.setdefault("morph", 0) < 2:
                 sampled["morph"] += 1
@@ -581,6 +1049,34 @@ CORPUS = {
         ({"v": V4, "c": [1, 2, 3, -1], "m": None}, [-1], False),              # to_root(-1) there never terminates
         ({"v": V4, "c": [-1, 0, 1, 1], "m": None}, [-1], False),
         ({"v": V4, "c": [-1, 0, 1, 1], "m": None}, [4], False),
+        # cyclic connectivity (2 -> 3 -> 1 -> 2 next to the root 0): to_root from the cycle never reaches the old root
+        ({"v": V4, "c": [-1, 2, 3, 1], "m": None}, [2], False),
+        ({"v": V4, "c": [-1, 2, 3, 1], "m": None}, [0], False),               # ... from the root itself it stops at once
+    ],
+    "hists": [
+        # the cache is keyed by SEGMENT index (vertex index - 1): a conversion that "reuses" cached segments by vertex index
+        # duplicates the segment of vertex k+1 in the slot of vertex k -- only visible after a view read on the same object
+        ({"v": V4, "c": [-1, 0, 1, 1], "m": None}, [{"o": "get", "i": 1}, {"o": "conv"}]),
+        ({"v": V4, "c": [-1, 0, 1, 1], "m": None}, [{"o": "iter"}, {"o": "conv"}, {"o": "get", "i": 0}, {"o": "sfv", "k": 3},
+                                                    {"o": "len"}, {"o": "valid"}]),
+        ({"v": V4, "c": [-1, 3, 1, 0], "m": None}, [{"o": "get", "i": 2}, {"o": "get", "i": -2}, {"o": "get", "i": 2},
+                                                    {"o": "conv"}, {"o": "iter"}]),
+        # re-rooting there and back on one object, views before / in between / after; no view read before the first to_root
+        ({"v": V4, "c": [-1, 0, 1, 2], "m": None}, [{"o": "toroot", "j": 3}, {"o": "conv"}, {"o": "toroot", "j": 0},
+                                                    {"o": "get", "i": 0}, {"o": "iter"}, {"o": "conv"}]),
+        # KNOWN FINDING: to_root does not invalidate the segment cache
+        ({"v": V4, "c": [-1, 0, 1, 2], "m": None}, [{"o": "toroot", "j": 3}, {"o": "get", "i": 0}, {"o": "toroot", "j": 0},
+                                                    {"o": "get", "i": 0}, {"o": "conv"}]),
+        # user-assigned segment (outside the property): the conversion must not pick it up, iteration runs past the arrays
+        ({"v": V4, "c": [-1, 0, 1, 1], "m": None}, [{"o": "set", "i": 3, "s": [9, [1, 2, 3, 4], [5, 6, 7, 8], 2]}, {"o": "iter"},
+                                                    {"o": "conv"}, {"o": "valid"}, {"o": "get", "i": 3}]),
+        ({"v": V4[:1], "c": [-1], "m": None}, [{"o": "iter"}, {"o": "conv"}, {"o": "len"}, {"o": "toroot", "j": 0}, {"o": "get", "i": 0}]),
+        ({"v": [], "c": [], "m": None}, [{"o": "iter"}, {"o": "conv"}, {"o": "len"}, {"o": "get", "i": 0}, {"o": "toroot", "j": 0}]),
+        ({"v": [], "c": [], "m": None}, [{"o": "len"}, {"o": "append", "s": [3, [8, 16, 24, 32], [0, 8, 0, 8], None]}]),
+        ({"v": V4[:2], "c": [-1, 0], "m": None}, [{"o": "get", "i": 0}, {"o": "append", "s": [5, [80, 0, 0, 8], [72, 0, 0, 8], None]},
+                                                  {"o": "len"}, {"o": "iter"}, {"o": "get", "i": 1}, {"o": "conv"},
+                                                  {"o": "iadd", "ss": [[6, [1, 1, 1, 1], [2, 2, 2, 2], 5], [7, [3, 3, 3, 3], [4, 4, 4, 4], 6]]},
+                                                  {"o": "len"}, {"o": "iter"}, {"o": "valid"}, {"o": "physical"}]),
     ],
     "files": [
         {"id": None, "v": V4, "c": [-1, 0, 1, 1], "m": None},
@@ -596,6 +1092,21 @@ CORPUS = {
         {"cells": [{"id": "x", "mid": "m", "v": V4[:2], "c": [-1, 0], "m": None}],
          "morphs": [{"id": "x", "v": V4[:3], "c": [-1, 0, 0], "m": None}]},
         {"cells": [{"id": "x", "mid": "vertices", "v": V4[:2], "c": [-1, 0], "m": None}], "morphs": []},
+        # ... a cell that refers to a stand-alone morphology instead of embedding one; a plain Morphology in the document
+        {"cells": [{"id": "c", "mid": None, "kind": "none", "v": [], "c": [], "m": None}],
+         "morphs": [{"id": "m", "v": V4[:3], "c": [-1, 0, 0], "m": None}]},
+        {"cells": [{"id": "c", "mid": "pm", "kind": "plain", "v": [], "c": [], "m": None},
+                   {"id": "c2", "mid": "am", "v": V4[:2], "c": [-1, 0], "m": None}], "morphs": []},
+        {"cells": [], "morphs": [{"id": "pm", "kind": "plain", "v": [], "c": [], "m": None},
+                                 {"id": "m", "v": V4[:3], "c": [-1, 0, 0], "m": None}]},
+        # ... the default name of an id-less morphology / cell equals an explicit id
+        {"cells": [], "morphs": [{"id": "Morphology1", "v": V4[:2], "c": [-1, 0], "m": None},
+                                 {"id": None, "v": V4[:3], "c": [-1, 0, 0], "m": None}]},
+        {"cells": [{"id": None, "mid": None, "v": V4[:2], "c": [-1, 0], "m": None},
+                   {"id": "Cell0", "mid": None, "v": V4[:3], "c": [-1, 0, 0], "m": None}], "morphs": []},
+        # default ids that do NOT collide: id-less cell 0 (Cell0/Morphology0) and an id-less stand-alone morphology (Morphology0)
+        {"cells": [{"id": None, "mid": None, "v": V4[:2], "c": [-1, 0], "m": None}],
+         "morphs": [{"id": None, "v": V4[:3], "c": [-1, 0, 0], "m": None}, {"id": "Cell1", "v": V4[:1], "c": [-1], "m": None}]},
     ],
 }
 
@@ -616,27 +1127,52 @@ def run(ctx):
         n = len(a["c"])
         for j in range(n):                                   # every choice of new root, fresh object each
             toroots.append((a, [j], True))
-        js = [rng.randrange(n) for _ in range(3)]            # three re-rootings on one object
-        toroots.append((a, js, True))
+        if n:
+            js = [rng.randrange(n) for _ in range(3)]        # three re-rootings on one object
+            toroots.append((a, js, True))
         if rng.random() < 0.5:
-            bad = rng.choice([n, n + 3, -n - 1, -1, -n, -rng.randint(1, n)])
-            if bad == -1 and a["c"][-1] == -1:
+            bad = rng.choice([n, n + 3, -n - 1, -1, -n, -rng.randint(1, max(n, 1))])
+            if bad == -1 and n and a["c"][-1] == -1:
                 bad = n          # to_root(-1) with the root in the last slot never terminates (kept once, in CORPUS)
             toroots.append((a, [bad], False))
+    for _ in range(ctx.n(1, 3)):                             # cyclic connectivity, guarded (each costs the guard's timeout)
+        a = gen_arr(rng, big, kind="tree0")
+        n = len(a["c"])
+        if n >= 4:
+            cyc = rng.sample(range(1, n), rng.randint(2, min(4, n - 1)))
+            c = list(a["c"])
+            for x, y in zip(cyc, cyc[1:] + cyc[:1]):
+                c[x] = y
+            a = dict(a, c=c, kind="cyclic")
+            on_cycle = [x for x in range(n) if not _reaches(c, x, 0)]
+            toroots.append((a, [rng.choice(on_cycle)], False))
+            ctx.count("toroot:cyclic(guarded)")
     for _ in range(ctx.n(12, 60) * mult):                    # forests: bug-for-bug only
         a = gen_arr(rng, big, kind="floating")
         n = len(a["c"])
         root_comp = [v for v in range(n) if _reaches(a["c"], v, 0)]
-        toroots.append((a, [rng.choice(root_comp)], False))
+        if root_comp:
+            toroots.append((a, [rng.choice(root_comp)], False))
+    hists = [(dict(a), json.loads(json.dumps(c))) for a, c in CORPUS["hists"]]
+    for i in range(ctx.n(450, 4000) * mult):
+        kind = rng.choices(["tree0", "tree0id", "rerooted", "floating", "badmask"], [60, 14, 10, 10, 6])[0]
+        a = gen_arr(rng, big, kind=kind)
+        tree = any(is_tree(a["c"], r0) for r0 in range(len(a["c"]))) and not any(eff_mask(a))
+        calls = gen_calls(rng, len(a["c"]), with_set=(i % 7 == 6), long=(i % 3 == 0))
+        if not tree:       # to_root on forests / garbage may not terminate: the toroot stream has the guarded cases
+            calls = [c for c in calls if c["o"] != "toroot"] or [{"o": "iter"}]
+        if len(a["c"]) == 0 and i % 2:
+            calls.append({"o": "append", "s": [3, [8, 16, 24, 32], [0, 8, 0, 8], None]})
+        hists.append((a, calls))
     for _ in range(ctx.n(40, 300) * mult):
         a = gen_arr(rng, big)
         files.append({"id": rng.choice([None, None, "m", "vertices", "Morphology", "a10"]), "v": a["v"], "c": a["c"],
                       "m": a["m"], "int": a["int"]})
-    for i in range(ctx.n(160, 1200) * mult):
-        files.append(gen_doc(rng, collide=(i % 5 == 4)))
+    for i in range(ctx.n(200, 1500) * mult):
+        files.append(gen_doc(rng, collide=(i % 5 == 4), mixed=(i % 6 == 5)))
     if big:
         ctx.count("tier:thorough-sizes")
-    run_cases(ctx, morphs, toroots, files)
+    run_cases(ctx, morphs, toroots, files, hists)
 
 
 def _reaches(c, v, root):
@@ -653,7 +1189,9 @@ def replay(ctx, payload):
     case = payload["case"]
     case = case.get("case", case) if "stream" not in case else case
     st = case.get("stream")
-    if st == "morph":
+    if st == "hist":
+        run_cases(ctx, [], [], [], [(case["arr"], case["calls"])])
+    elif st == "morph":
         run_cases(ctx, [(case["arr"], case["idx"])], [], [])
     elif st == "toroot":
         a = case["arr"]
